@@ -30,7 +30,10 @@ CONSTANTS Alphabet,               \* byte values data are made of
           MaxDatas,               \* set of maximum data operation sizes
           WeakM,                  \* modulus of the weak hash (65536 in the code)
           SwallowSendBlockError,  \* TRUE = unrepaired sendBlock
-          Faults                  \* may transmit calls fail?
+          Faults,                 \* may transmit calls fail?
+          OpReset                 \* how transmitData/transmitBlock set up the engine's shared Operation:
+                                  \* "whole" (the code: *e.operation = Operation{...}) or "fieldwise"
+                                  \* (own fields set, cleared afterwards, data NOT cleared on an error return)
 
 Seqs(n) == UNION {[1..k -> Alphabet] : k \in 0..n}
 MinOf(S) == CHOOSE x \in S : \A y \in S : x <= y
@@ -71,12 +74,15 @@ Signature(base, bs) ==
 (* (model checking); plan.at = k >= 0: the k-th transmit call fails (0 =    *)
 (* none), once or persistently (functional runs).                           *)
 (***************************************************************************)
+\* eop is the engine's re-used Operation object (Engine.operation): it outlives a Deltify call, so a
+\* sequence of calls on one engine starts each call with whatever the previous one left in it
+ZeroOp == [data |-> <<>>, start |-> 0, count |-> 0]
 InitState(base, target, bs, md, plan) ==
   [base |-> base, target |-> target, bs |-> bs, md |-> md, sig |-> Signature(base, bs),
    pc |-> "start", pos |-> 0, buf |-> <<>>, r |-> <<0, 0>>, cstart |-> 0, ccount |-> 0,
    sd |-> <<>>, after |-> "", midx |-> 0,
    calls |-> 0, nfailed |-> 0, fmode |-> "none", failedAt |-> 0, plan |-> plan,
-   delivered |-> <<>>, err |-> ""]
+   delivered |-> <<>>, err |-> "", eop |-> ZeroOp]
 AnyPlan == [at |-> -1, mode |-> "any"]
 
 DataOp(d) == [data |-> d, start |-> 0, count |-> 0]
@@ -92,13 +98,22 @@ MustFail(t) ==
 MayFail(t) == MustFail(t) \/ (t.plan.at = -1 /\ Faults /\ t.failedAt = 0)
 FailModes(t) == IF t.plan.at = -1 THEN (IF t.fmode = "none" THEN {"once", "persistent"} ELSE {t.fmode})
                 ELSE {t.plan.mode}
-TxFail(t, mode) == [t EXCEPT !.calls = @ + 1, !.nfailed = @ + 1,
-                             !.failedAt = IF @ = 0 THEN t.calls + 1 ELSE @, !.fmode = mode]
-TxOk(t, op) == [t EXCEPT !.calls = @ + 1, !.delivered = Append(@, op)]
+\* transmitData / transmitBlock: the shared object as handed to the transmitter, and as left behind
+Staged(t, op) == IF OpReset = "whole" THEN op
+                 ELSE IF IsData(op) THEN [t.eop EXCEPT !.data = op.data]
+                 ELSE [t.eop EXCEPT !.start = op.start, !.count = op.count]
+LeftBehind(t, op, ok) ==
+  IF OpReset = "whole" THEN op
+  ELSE IF IsData(op) THEN (IF ok THEN [Staged(t, op) EXCEPT !.data = <<>>] ELSE Staged(t, op))
+  ELSE [Staged(t, op) EXCEPT !.start = 0, !.count = 0]
+TxFail(t, op, mode) == [t EXCEPT !.calls = @ + 1, !.nfailed = @ + 1,
+                                 !.failedAt = IF @ = 0 THEN t.calls + 1 ELSE @, !.fmode = mode,
+                                 !.eop = LeftBehind(t, op, FALSE)]
+TxOk(t, op) == [t EXCEPT !.calls = @ + 1, !.delivered = Append(@, Staged(t, op)), !.eop = LeftBehind(t, op, TRUE)]
 \* successors of a code section that makes one transmit call
 WithTx(t, op, Ok(_), Fl(_)) ==
   (IF ~MustFail(t) THEN {Ok(TxOk(t, op))} ELSE {})
-  \cup (IF MayFail(t) THEN {Fl(TxFail(t, m)) : m \in FailModes(t)} ELSE {})
+  \cup (IF MayFail(t) THEN {Fl(TxFail(t, op, m)) : m \in FailModes(t)} ELSE {})
 
 (***************************************************************************)
 (* Deltify, section by section.                                             *)
